@@ -401,6 +401,9 @@ func (n *Node) StepFullQueue(e interface{}) (out Out) {
 
 // Step performs one transition and collects its outputs. A panic is recovered and reported in Out.
 func (n *Node) Step(e interface{}) (out Out) {
+	if o, ok := e.(*gossipv1.SignedObservation); e == nil || (ok && o == nil) {
+		return out // a loopback that never existed
+	}
 	func() {
 		defer func() {
 			if p := recover(); p != nil {
@@ -415,15 +418,34 @@ func (n *Node) Step(e interface{}) (out Out) {
 	// loopback goroutine; wait for it so that executions are deterministic.
 	switch e.(type) {
 	case *common.MessagePublication, processor.VerifInject:
+		buf := []byte(nil)
 		for i := 0; i < len(out.Obs); i++ {
-			select {
-			case lb := <-n.ObsvC:
-				n.Pending = append(n.Pending, lb)
-				out.Loopback++
-			case <-time.After(10 * time.Second):
-				if out.Panic == nil {
-					ev.Broken("loopback of own observation did not arrive")
+			got := false
+			for spin := 0; !got; spin++ {
+				select {
+				case lb := <-n.ObsvC:
+					n.Pending = append(n.Pending, lb)
+					out.Loopback++
+					got = true
+				default:
+					runtime.Gosched()
 				}
+				if got || spin < 2000 || spin%200 != 0 {
+					continue
+				}
+				// not there yet: is anybody still going to send it? (goroutine states, no clock)
+				if buf == nil {
+					buf = make([]byte, 1<<20)
+				}
+				if !strings.Contains(string(buf[:runtime.Stack(buf, true)]), ").broadcastSignature.func") {
+					break
+				}
+			}
+			if !got {
+				if out.Panic == nil {
+					out.LostLoopback++ // the node signed its observation and never told itself (judged by C02's oracle)
+				}
+				break
 			}
 		}
 	}
@@ -475,6 +497,9 @@ func (n *Node) drain(out *Out) {
 
 // TakeLoopback removes and returns the i-th pending loopback.
 func (n *Node) TakeLoopback(i int) *gossipv1.SignedObservation {
+	if i >= len(n.Pending) {
+		return nil // the node never sent it (Step ignores a nil observation)
+	}
 	lb := n.Pending[i]
 	n.Pending = append(append([]*gossipv1.SignedObservation{}, n.Pending[:i]...), n.Pending[i+1:]...)
 	return lb
